@@ -21,13 +21,14 @@ def pkpoint(ctx, obj, config):
 
 def wl_ecdh(ctx, config):
     rng = ctx.rng
-    for it in range(ctx.n(1500, 40000)):
+    for it in ctx.iters(1500, 40000):
         d = pools.scalar(rng, 0.4); sk = b32(d); valid = 0 < d < n
         P = mulG(pools.valid_seckey(rng, 0.3)) if it % 4 else lift_x(next(x for x in iter(lambda: pools.field(rng), None) if lift_x(x)))
         po = pkobj(ctx, P, config)
         if po is None: continue
         mode = it % 4
-        r = ctx.call("ecdh", po, sk, mode, config=config)
+        # the data pointer (ignored by the default hash and by the shim's hashers) is non-NULL in a third of the cases
+        r = ctx.call("ecdh", po, sk, mode, config=config) if it % 3 else ctx.call("ecdh", po, sk, mode, pools.rbytes(rng, rng.choice((1, 32, 64))), config=config)
         if r is None: continue
         ctx.ev("ecdh", ("valid" if valid else "invalid_secret") + ":mode%d" % mode, True, sk, ser33(P), mode)
         want_ret = 1 if (valid and mode != 2) else 0
@@ -75,13 +76,13 @@ def wl_decode(ctx, config):
     rng = ctx.rng
     for s, cls in ctx.mine(special_strings(rng)):
         check_decode(ctx, config, s, cls)
-    for it in range(ctx.n(2500, 60000)):
+    for it in ctx.iters(2500, 60000):
         s = pools.rbytes(rng, 64) if it % 3 else b32(pools.field(rng)) + b32(pools.field(rng))
         check_decode(ctx, config, s, "random" if it % 3 else "pool")
 
 def wl_encode(ctx, config):
     rng = ctx.rng
-    for it in range(ctx.n(500, 12000)):
+    for it in ctx.iters(500, 12000):
         d = pools.scalar(rng, 0.3); sk = b32(d); valid = 0 < d < n
         aux = None if it % 3 == 0 else pools.rbytes(rng, 32)
         r = ctx.call("ellswift_create", sk, aux, config=config)
@@ -108,7 +109,7 @@ def wl_encode(ctx, config):
 
 def wl_xdh(ctx, config):
     rng = ctx.rng
-    for it in range(ctx.n(500, 12000)):
+    for it in ctx.iters(500, 12000):
         da = pools.scalar(rng, 0.25) if it % 5 == 0 else pools.valid_seckey(rng, 0.2); db = pools.valid_seckey(rng, 0.2)
         va = 0 < da < n
         # party A's encoding: from the library (valid key) or an arbitrary string (decodes to some point)
@@ -123,15 +124,19 @@ def wl_xdh(ctx, config):
             if eb is None or eb.ret != 1: continue
             ell_b = eb.b(1); kb = db
         mode = it % 4; pre = pools.rbytes(rng, 64) if mode == 1 else None
+        # hashers documented to ignore their data pointer (BIP-324, caller-supplied ones) get a non-NULL pointer in a third of the cases, on either side
+        pre_a = pre if mode == 1 else (pools.rbytes(rng, 64) if it % 3 == 0 else None)
         if mode == 1 and it % 8 == 1:
             # prefixes built from the BIP-324 tag hash (the prefix for which the library has a precomputed midstate): whole, halves, neighbours
             th = sha(b"bip324_ellswift_xonly_ecdh")
             pre = rng.choice((th + th, th + bytes(32), th + pools.rbytes(rng, 32), bytes(32) + th, pools.rbytes(rng, 32) + th, th + th[:31] + bytes([th[31] ^ 1]), th[:31] + bytes([th[31] ^ 1]) + th))
         PB = ellswift.decode(ell_b)
         # A's view
-        ra = ctx.call("ellswift_xdh", ell_a, ell_b, b32(da), 0, mode, pre, config=config)
+        if mode == 1: pre_a = pre
+        pre_b = pre if mode == 1 else (pools.rbytes(rng, 64) if it % 3 == 1 else None)
+        ra = ctx.call("ellswift_xdh", ell_a, ell_b, b32(da), 0, mode, pre_a, config=config)
         if ra is None: continue
-        ctx.ev("ellswift_xdh", ("valid" if va else "invalid_secret") + ":mode%d" % mode, True, ell_a, ell_b, b32(da), mode)
+        ctx.ev("ellswift_xdh", ("valid" if va else "invalid_secret") + ":mode%d" % mode + (":data_given_to_ignoring_hasher" if mode != 1 and pre_a else ""), True, ell_a, ell_b, b32(da), mode)
         want_ret = 1 if (va and mode != 2) else 0
         if not ctx.check(ra.ret == want_ret, "ellswift_xdh:ret:%s" % ("succeeded_on_invalid" if ra.ret else "failed_on_valid"), "sk=%x mode=%d" % (da, mode), config): continue
         if not want_ret: continue
@@ -141,7 +146,7 @@ def wl_xdh(ctx, config):
         if kb is not None:
             # "party: boolean indicating which party we are: zero if we are party A, non-zero if we are party B"
             party = 1 if it % 3 else rng.choice((2, 4, 256, -2, -1, 3, 2**31 - 1, -2**31, 0x10000, 0x7ffffffe, rng.randrange(2, 2**31), -rng.randrange(1, 2**31)))
-            rb = ctx.call("ellswift_xdh", ell_a, ell_b, b32(kb), party, mode, pre, config=config)
+            rb = ctx.call("ellswift_xdh", ell_a, ell_b, b32(kb), party, mode, pre_b, config=config)
             if rb is not None:
                 ctx.ev("ellswift_xdh", "party_b%s:mode%d" % ("" if party == 1 else ":nonzero_not_1", mode), True, ell_a, ell_b, b32(kb), mode, party)
                 ctx.check(rb.ret == 1 and rb.b(1) == ra.b(1), "ellswift_xdh:parties_disagree", "ell_a=%s ell_b=%s" % (ell_a.hex(), ell_b.hex()), config)
